@@ -467,6 +467,9 @@ func C16(tier string) int {
 			run.Violate("c16-long", lcs[i], f, func() *h.Finding { return evalC16Long(lcs[i]) })
 		}
 	})
+	// the connection ends or falls silent in the middle of an answer (checks/c17.go)
+	run.Rule += clientFaultRule
+	clientFaultFamily(run, "C16")
 	// histories of client calls (explicit-state search, checks/clientbfs.go)
 	run.Rule += clientSearchRule
 	clientSearch(run, "C16", 0)
